@@ -1,0 +1,9 @@
+//go:build verif
+
+package transaction
+
+// Verification hooks (build tag verif): read-only access to unexported size constants.
+
+const VerifBaseOverhead = base_overhead
+const VerifOutputOverhead = output_overhead
+const VerifMaxTxSize = max_tx_size
